@@ -367,7 +367,7 @@ def judge_cases(run: Run, cases: list[dict], batch_size: int = 6000, par: int = 
 
 
 def check(prop: str, tier: str, seed: int) -> int:
-    run = Run(prop, tier, seed, "exploration")
+    run = Run(prop, tier, seed, "model_checking" if prop == "C03" else "exploration")
     rnd = random.Random(seed)
     run.assumptions = ["the oracle is spec/Wire.tla evaluated by TLC; MC_Wire checks the oracle against published vectors and its own builders",
                        "frames built by the harness are untrusted inputs: their class (accept / partial / rejected / non-accept) is decided inside TLC",
